@@ -45,6 +45,8 @@ type Spec struct {
 	ATHeader     string   `json:"at_header,omitempty"`
 	ATPreamble   *string  `json:"at_preamble,omitempty"`
 	TokenLife    int      `json:"token_life,omitempty"`
+	Discovery    bool     `json:"discovery,omitempty"`          // endpoints from configuration_uri (in-process canned provider)
+	NoLogoutRedirect bool `json:"no_logout_redirect,omitempty"` // logout.redirect_uri not configured (must be discovered)
 }
 
 const (
@@ -73,6 +75,8 @@ type World struct {
 	Envs    []*Env // per thread under schedx
 	TLSPool internal.TLSConfigPool
 	Crashes int
+	Keys    []*Key // keys currently published by the provider
+	Rolled  bool
 }
 
 var (
@@ -85,6 +89,7 @@ func sharedPool() internal.TLSConfigPool {
 	poolOnce.Do(func() {
 		tlsPool = internal.NewTLSConfigPool(context.Background())
 		jwksReal = oidc.NewJWKSProvider(&configv1.Config{}, tlsPool)
+		go func() { _ = jwksReal.ServeContext(context.Background()) }()
 	})
 	return tlsPool
 }
@@ -222,6 +227,14 @@ func New(spec Spec) *World {
 	}
 	if spec.Logout {
 		cfg.Logout = &oidcv1.LogoutConfig{Path: LogoutPath, RedirectUri: LogoutRedirect}
+		if spec.NoLogoutRedirect {
+			cfg.Logout.RedirectUri = ""
+		}
+	}
+	if spec.Discovery {
+		EnsureDiscoveryNet()
+		cfg.ConfigurationUri = DiscoveryBase + "/.well-known/openid-configuration"
+		cfg.AuthorizationUri, cfg.TokenUri, cfg.JwksConfig = "", "", nil
 	}
 	w.Cfg = cfg
 	abs, idle := time.Duration(spec.Abs)*time.Second, time.Duration(spec.Idle)*time.Second
@@ -244,6 +257,7 @@ func New(spec Spec) *World {
 	if spec.TokenLife > 0 {
 		w.IdP.TokenLife = spec.TokenLife
 	}
+	w.Keys = []*Key{KeyEC, KeyRSA}
 	w.IdP.Hook = w.idpHook
 	w.IdP.Tagger = func() (int, int) {
 		if s := vsched.Active(); s != nil {
@@ -302,6 +316,36 @@ func (w *World) CrashRestart() {
 }
 
 func (w *World) Now() time.Time { return w.now }
+
+// DiscoveryBase is the base URL of the canned provider used by discovery worlds.
+const DiscoveryBase = "http://disc.idp.test"
+
+var discOnce sync.Once
+
+// EnsureDiscoveryNet installs (once per process) the canned network with the discovery provider.
+func EnsureDiscoveryNet() {
+	discOnce.Do(func() {
+		InitKeys()
+		InstallCannedNet(map[string]Responder{"disc.idp.test": CannedIdP(DiscoveryBase, nil)}, nil)
+	})
+}
+
+// ExpectedLogoutRedirect is the end-session URI a successful logout must redirect to: the configured one, or
+// the discovered one when none is configured.
+func (w *World) ExpectedLogoutRedirect() string {
+	if w.Spec.NoLogoutRedirect {
+		return DiscoveryBase + "/logout"
+	}
+	return LogoutRedirect
+}
+
+// Rollover: the provider rolls its signing key (new EC key, the old one is no longer published).
+func (w *World) Rollover() {
+	w.Rolled = true
+	w.IdP.Key = KeyEC2
+	w.Keys = []*Key{KeyEC2, KeyRSA}
+	w.Cfg.JwksConfig = &oidcv1.OIDCConfig_Jwks{Jwks: JWKS(KeyEC2, KeyRSA)}
+}
 
 // Advance moves virtual time (and the Redis server's clock) forward.
 func (w *World) Advance(d time.Duration) {
